@@ -330,8 +330,10 @@ func c05Case(r *mon.Run, l *local, s string) {
 	}
 	var wantEP netip.Prefix
 	wantE := false
-	if netutil.ValidateDomainName(ref.TrimOneDot(s)) == nil {
-		wantEP, wantE = ref.ArpaExtract(s)
+	// "valid domain name" is judged by the independent grammar of C03, not by golibs' own validator: a defect
+	// there must not move the oracle along with the code
+	if p, ok := ref.ArpaExtract(s); ok && ref.Names(ref.TrimOneDot(s)).Domain {
+		wantEP, wantE = p, true
 	}
 	gotEP, errE := netutil.ExtractReversedAddr(s)
 	if (errE == nil) != wantE || (wantE && gotEP != wantEP) {
